@@ -18,9 +18,9 @@ Proof.
   intros Hs Hw H b cl Hb Ha. destruct (H b cl) as [?|[ce ?]]; eauto using lookup_weaken.
 Qed.
 
-Lemma calls_bound_mono K K' n n' : K' ⊆ K → n <= n' → calls_bound K n → calls_bound K' n'.
+Lemma calls_bound_mono K K' n n' : K' ⊆ K → n = n' → calls_bound K n → calls_bound K' n'.
 Proof.
-  intros Hs Hn H b [cl Hb]. assert (b < 4294967296 + n); [|lia]. apply H. exists cl. eapply lookup_weaken; eauto.
+  intros Hs <- [Hn H]. split; [done|]. intros b [cl Hb]. apply H. exists cl. eapply lookup_weaken; eauto.
 Qed.
 
 Lemma rmq_nodup_mono Cn Cn' q :
@@ -149,7 +149,7 @@ Section mark.
   Qed.
   Lemma mark_calls_bound n : calls_bound K n → calls_bound K' n.
   Proof.
-    intros H b0 Hs. apply H. unfold K' in Hs. apply lookup_insert_is_Some in Hs as [<-|[_ ?]]; eauto.
+    intros [Hn H]. split; [done|]. intros b0 Hs. apply H. unfold K' in Hs. apply lookup_insert_is_Some in Hs as [<-|[_ ?]]; eauto.
   Qed.
   Lemma mark_caller_live wa X callee : caller_live ((b, callee) :: wa) X K → caller_live wa X K'.
   Proof.
